@@ -1957,8 +1957,14 @@ func (ls *LState) Status(th *LState) string {
 		status = "dead"
 	} else if ls.G.CurrentThread == th {
 		status = "running"
-	} else if ls.Parent == th {
-		status = "normal"
+	} else {
+		// every coroutine on the chain of resumers of the running one is "normal"
+		for p := ls.G.CurrentThread; p != nil; p = p.Parent {
+			if p.Parent == th {
+				status = "normal"
+				break
+			}
+		}
 	}
 	return status
 }
